@@ -62,6 +62,7 @@ pub struct WModel {
     synths: AtomicU64,
     rejected: AtomicU64,
     checked_last: AtomicU64,
+    monitor: Arc<HangMonitor>,
 }
 
 fn apply_real(e: &mut Engine, ns: usize, a: &WAct) -> Result<(), String> {
@@ -137,6 +138,7 @@ impl Model for WModel {
     }
     fn next_state(&self, s: &WState, a: WAct) -> Option<WState> {
         self.transitions.fetch_add(1, Ordering::Relaxed);
+        let _watch = self.monitor.enter(|| format!("{:?} after {}", a, s.render));
         let mut engine = s.engine.clone();
         let mut reference = s.reference.clone();
         let r = catch(|| apply_real(&mut engine, self.ns, &a));
@@ -302,17 +304,15 @@ fn voiceset_part(rep: &Report) {
 }
 
 pub fn run(tier: Tier) -> i32 {
-    let rep = Report::new("C19", tier, "model_checking");
+    let rep: &'static Report = Box::leak(Box::new(Report::new("C19", tier, "model_checking")));
+    let monitor = Arc::new(HangMonitor::start(rep, "C19 weight history"));
     let depth: u8 = tier.pick(2, 3);
     rep.set_rule("HIST (stateright BFS): all histories of set_duration/set_parameter(i)/set_gv(i) with weight vectors from {5 valid incl. vertices and (1.5,-.5); invalid: wrong lengths, sum off by 1e-6 and 0.1, NaN, (inf,-inf), empty} to the depth bound on real 2- and 3-voice engines, synthesis after every update; states merged by (depth, Debug rendering of the real InterporationWeight); plus SCOPE: VoiceSet::new on [], and on every list of 2-4 voices where one voice (in every position) or an identical pair differs in exactly one metadata field (in every position) or in none; non-trivial = every state after at least one update");
     rep.assume("weight sums strictly between 1e-15 and 1e-6 away from 1 are unspecified by the property and not in the alphabet");
-    voiceset_part(&rep);
+    voiceset_part(rep);
     let corpus = labels::corpus();
     let utt = vec![corpus[41].clone(), corpus[42].clone()];
     for (cfg, nv) in [(GenCfg { gv: true, nstate: 2, ..GenCfg::default() }, 2usize), (GenCfg { gv: false, ns: 2, nstate: 1, stage: 1, order: 4, ..GenCfg::default() }, 3usize)] {
-        if tier == Tier::Quick && nv == 3 && depth > 2 {
-            continue;
-        }
         let voices: Vec<Arc<Voice>> = (0..nv).map(|v| Arc::new(load_voice_bytes(&GenCfg { variant: v as u32, ..cfg.clone() }.bytes()).expect("generated voice"))).collect();
         let base = engine_from_voices(voices).expect("voice set");
         let ns = cfg.ns;
@@ -324,8 +324,8 @@ pub fn run(tier: Tier) -> i32 {
         }
         let mut counts = Vec::new();
         for threads in [nthreads(), 3] {
-            let d = if nv == 3 { depth.min(2) } else { depth };
-            let model = WModel { base: base.clone(), ns, nv, acts: acts.clone(), depth: d, utt: utt.clone(), transitions: Default::default(), synths: Default::default(), rejected: Default::default(), checked_last: Default::default() };
+            let d = depth;
+            let model = WModel { base: base.clone(), ns, nv, acts: acts.clone(), depth: d, utt: utt.clone(), transitions: Default::default(), synths: Default::default(), rejected: Default::default(), checked_last: Default::default(), monitor: monitor.clone() };
             let checker = model.checker().threads(threads).target_max_depth(d as usize + 2).spawn_bfs().join();
             counts.push(checker.unique_state_count());
             rep.guard(checker.model().checked_last.load(Ordering::Relaxed) > 0, "invariant never evaluated on states at the depth bound");
@@ -364,5 +364,5 @@ pub fn run(tier: Tier) -> i32 {
     }
     rep.sample_last(json!({"voiceset": "[A'(option (file)), A, A]", "expect": "Err"}));
     rep.guard(rep.states.load(Ordering::Relaxed) > 50, "too few states");
-    rep.finish()
+    rep.finish_ref()
 }
